@@ -14,7 +14,7 @@ theorem serde_picture_roundtrip (ty : Ty) (v : Int) (hv : ty.Valid v) (now : Clo
       ∃ r, parseValue ty text (Serde.picture ty) now = .ok (v, r) := by
   obtain ⟨text, a, _, c⟩ := Lemmas.serde_roundtrip ty v hv
   refine ⟨text, ?_, ?_⟩
-  · unfold Serde.serStr Serde.BUF_CAP at a
+  · unfold Serde.serStr Serde.BUF_CAP Gen.SERDE_BUF_CAP at a
     split at a
     · rename_i t h; cases a; exact h
     · cases a
